@@ -382,6 +382,7 @@ func main() {
 	runReader()
 	runCanvas()
 	runAsymMargins()
+	runSweep()
 	runObjectHistories()
 	chk.Finish()
 }
